@@ -298,8 +298,8 @@ Print Assumptions C10_example.
 (* END TO END, TILED_FULL: for every frame f, for_image(frame_number = f) and
    for_image(for_total_pixel_matrix = True) succeed, the 1-based offsets (C, R) yielded by
    iter_tiled_full_frame_data lie inside the total pixel matrix, and pixel (i, j) of the frame is pixel
-   (C - 1 + i, R - 1 + j) of the total pixel matrix displaced along z by (focal plane - 1) * spacing
-   minus the origin's Z offset; on the first focal plane with no / zero origin Z the two coincide *)
+   (C - 1 + i, R - 1 + j) of the total pixel matrix displaced along z by (focal plane - 1) * spacing;
+   on the first focal plane the two coincide - for EVERY Z offset of the origin item, present or not *)
 Theorem C10_tiled_full_frame_vs_tpm d x y oz r c sr sc oss f :
   is_tiled_full d x y oz r c sr sc oss -> 0 < sr -> 0 < sc ->
   (1 <= d_rows d)%Z -> (1 <= d_cols d)%Z -> (1 <= d_tpm_rows d)%Z -> (1 <= d_tpm_cols d)%Z ->
@@ -313,8 +313,8 @@ Theorem C10_tiled_full_frame_vs_tpm d x y oz r c sr sc oss f :
     (1 <= tf_focal t <= d_focal d)%Z /\
     (forall i j, veq (aapply Fm (V3 i j 0))
                      (vadd (aapply T (V3 (inject_Z (tf_col t) - 1 + i) (inject_Z (tf_row t) - 1 + j) 0))
-                           (V3 0 0 (inject_Z (tf_focal t - 1) * opt_or oss 1 - opt_or oz 0)))) /\
-    (tf_focal t = 1%Z -> opt_or oz 0 == 0 ->
+                           (V3 0 0 (inject_Z (tf_focal t - 1) * opt_or oss 1)))) /\
+    (tf_focal t = 1%Z ->
      forall i j, veq (aapply Fm (V3 i j 0))
                      (aapply T (V3 (inject_Z (tf_col t) - 1 + i) (inject_Z (tf_row t) - 1 + j) 0))).
 Proof. exact (tiled_full_frame_vs_tpm d x y oz r c sr sc oss f). Qed.
@@ -329,7 +329,7 @@ Theorem C10_tiled_full_frame_ok d x y oz r c sr sc oss f :
   tiled_full_frame d f =
   Ok (TFrame (tf_k f / (tf_nt d * d_focal d) + 1) (tf_sl d f + 1)
              (tf_ci d f * d_cols d + 1) (tf_ri d f * d_rows d + 1)
-             (aapply (Aff (rotRD r c sr sc 1) (V3 x y (inject_Z (tf_sl d f) * opt_or oss 1)))
+             (aapply (Aff (rotRD r c sr sc 1) (V3 x y (opt_or oz 0 + inject_Z (tf_sl d f) * opt_or oss 1)))
                      (V3 (inject_Z (tf_ci d f * d_cols d)) (inject_Z (tf_ri d f * d_rows d)) 0))).
 Proof. exact (tiled_full_frame_ok d x y oz r c sr sc oss f). Qed.
 Print Assumptions C10_tiled_full_frame_ok.
@@ -340,7 +340,7 @@ Theorem C10_tiled_full_p2p_frame_to_tpm d x y oz r c sr sc oss f :
   (1 <= d_rows d)%Z -> (1 <= d_cols d)%Z -> (1 <= d_tpm_rows d)%Z -> (1 <= d_tpm_cols d)%Z ->
   (1 <= d_focal d)%Z -> (1 <= d_paths d)%Z ->
   (1 <= f <= d_paths d * d_focal d * tf_nt d)%Z ->
-  tf_sl d f = 0%Z -> opt_or oz 0 == 0 ->
+  tf_sl d f = 0%Z ->
   exists t X,
     tiled_full_frame d f = Ok t /\
     for_images_p2p d d (Some f) None false true = Ok X /\
@@ -468,18 +468,6 @@ Theorem C10_transforms_consistent pos r c sr sc ss pos2 r2 c2 sr2 sc2 :
 Proof. exact (transforms_consistent pos r c sr sc ss pos2 r2 c2 sr2 sc2). Qed.
 Print Assumptions C10_transforms_consistent.
 
-(* REFUTED for the code as it is (finding): a non-zero Z offset in the origin item is ignored by the
-   frame transformer and used by the total-pixel-matrix transformer; frame -> matrix P2P is refused *)
-Example C10_tiled_full_origin_z_refuted :
-  exists d x y oz r c sr sc oss f Fm T t,
-    is_tiled_full d x y (Some oz) r c sr sc oss /\ orthonormal r c /\
-    tiled_full_frame d f = Ok t /\
-    for_image_p2r d (Some f) false = Ok Fm /\ for_image_p2r d None true = Ok T /\
-    ~ veq (aapply Fm (V3 0 0 0)) (aapply T (V3 (inject_Z (tf_col t) - 1) (inject_Z (tf_row t) - 1) 0)) /\
-    for_images_p2p d d (Some f) None false true = Err EValue.
-Proof. exact tiled_full_origin_z_refuted. Qed.
-Print Assumptions C10_tiled_full_origin_z_refuted.
-
 (* recorded as coded: frame number 0 of a per-frame multi-frame image is not refused, it wraps to the last frame *)
 Example C10_frame_number_zero_wraps :
   let g k := FGroup None (Some (ASeq [0; 0; inject_Z k])) None None in
@@ -493,13 +481,13 @@ Print Assumptions C10_frame_number_zero_wraps.
 
 (* non-vacuity of the dataset theorems *)
 Example C10_dataset_example :
-  is_tiled_full (wsi_example None) 10 20 None (V3 0 1 0) (V3 1 0 0) (1 # 2) (1 # 2) None /\
+  is_tiled_full wsi5 10 20 (Some 5) (V3 0 1 0) (V3 1 0 0) (1 # 2) (1 # 2) None /\
   orthonormal (V3 0 1 0) (V3 1 0 0) /\
-  (1 <= 4 <= d_paths (wsi_example None) * d_focal (wsi_example None) * tf_nt (wsi_example None))%Z /\
-  tf_sl (wsi_example None) 4 = 0%Z /\
-  run_tiled_full_frame (wsi_example None) 4 = VL [VZ 1; VZ 1; VZ 5; VZ 5; VL [VQ (48 # 4); VQ (88 # 4); VQ (0 # 4)]] /\
-  run_for_images (wsi_example None) (wsi_example None) (Some 4%Z) None false true [[1; 2]]
-  = match run_for_images (wsi_example None) (wsi_example None) (Some 4%Z) None false true [[1; 2]] with
+  (1 <= 4 <= d_paths wsi5 * d_focal wsi5 * tf_nt wsi5)%Z /\
+  tf_sl wsi5 4 = 0%Z /\
+  run_tiled_full_frame wsi5 4 = VL [VZ 1; VZ 1; VZ 5; VZ 5; VL [VQ (48 # 4); VQ (88 # 4); VQ (20 # 4)]] /\
+  run_for_images wsi5 wsi5 (Some 4%Z) None false true [[1; 2]]
+  = match run_for_images wsi5 wsi5 (Some 4%Z) None false true [[1; 2]] with
     | VL [VL [a; _]; b] => VL [VL [a; VL [VL [VQ 5; VQ 6]]]; b] | _ => VErr "shape" end.
 Proof. exact dataset_example. Qed.
 Print Assumptions C10_dataset_example.
